@@ -162,14 +162,31 @@ def inspect_file(ck, cfg):
     return 'ok', h
 
 
+def child_env(cfg, tmp):
+    """environment of the child; `other_tmpdir`: TMPDIR on a different filesystem than the checkpoint (a common cluster setup)"""
+    env = dict(os.environ)
+    if cfg.get('other_tmpdir') and os.path.isdir('/dev/shm'):
+        d = os.path.join('/dev/shm', 'nvc06_' + os.path.basename(tmp))
+        os.makedirs(d, exist_ok=True)
+        env['TMPDIR'] = d
+    return env
+
+
+def cleanup_env(env):
+    d = env.get('TMPDIR', '')
+    if d.startswith('/dev/shm/nvc06_'):
+        shutil.rmtree(d, ignore_errors=True)
+
+
 def kill_experiment(args):
     cfg, k, ref_hashes, tag = args
     tmp = common.scratch_dir('nvc06k')
+    env = child_env(cfg, tmp)
     try:
         ck, side = os.path.join(tmp, 'ck.h5'), os.path.join(tmp, 'side.log')
         cmd = ['strace', '-f', '-o', '/dev/null', '-e', 'trace=' + KILLSET, '-P', ck, '-P', ck + '.tmp',
                '-e', 'inject=%s:signal=SIGKILL:when=%d' % (KILLSET, k)] + child_cmd(ck, side, cfg)
-        p = subprocess.run(cmd, stdout=subprocess.DEVNULL, stderr=subprocess.DEVNULL, timeout=900)
+        p = subprocess.run(cmd, stdout=subprocess.DEVNULL, stderr=subprocess.DEVNULL, timeout=900, env=env)
         vers, end = read_side(side)
         status, h = inspect_file(ck, cfg)
         res = {'k': k, 'completed_versions': len(vers), 'status': status, 'killed': end is None, 'tag': tag}
@@ -192,7 +209,7 @@ def kill_experiment(args):
         rcfg = dict(cfg, resume=True)
         rcfg['run'] = dict(cfg['run'], n_like_max=vers[-1][2] + 2 * cfg['make'].get('n_batch', 50))
         p2 = subprocess.run(child_cmd(ck, os.path.join(tmp, 'side2.log'), rcfg), stdout=subprocess.DEVNULL, stderr=subprocess.PIPE,
-                            timeout=900, text=True)
+                            timeout=900, text=True, env=env)
         if p2.returncode != 0:
             res['verdict'] = 'FAIL: resuming from the file left by the kill raised: ' + p2.stderr.strip().split('\n')[-1][:160]
             return res
@@ -202,13 +219,16 @@ def kill_experiment(args):
         return {'k': k, 'verdict': 'timeout', 'tag': tag}
     finally:
         shutil.rmtree(tmp, ignore_errors=True)
+        cleanup_env(env)
 
 
 def reference(cfg):
     tmp = common.scratch_dir('nvc06r')
+    env = child_env(cfg, tmp)
     try:
         ck, side, tr = os.path.join(tmp, 'ck.h5'), os.path.join(tmp, 'side.log'), os.path.join(tmp, 'tr.log')
-        p = subprocess.run(strace_cmd(ck, tr) + child_cmd(ck, side, cfg), stdout=subprocess.DEVNULL, stderr=subprocess.PIPE, timeout=1800, text=True)
+        p = subprocess.run(strace_cmd(ck, tr) + child_cmd(ck, side, cfg), stdout=subprocess.DEVNULL, stderr=subprocess.PIPE, timeout=1800,
+                           text=True, env=env)
         if p.returncode != 0:
             raise RuntimeError('traced reference run failed: ' + p.stderr[-500:])
         ops, human, notes = parse_trace(tr, ck)
@@ -223,6 +243,7 @@ def reference(cfg):
         return {'ops': ops, 'human': human, 'notes': notes, 'versions': vers, 'end': end, 'n_kill': n_kill}
     finally:
         shutil.rmtree(tmp, ignore_errors=True)
+        cleanup_env(env)
 
 
 def configs(tier, seed):
@@ -235,6 +256,8 @@ def configs(tier, seed):
     else:
         C += [{'make': dict(kind='wrap', n_dim=2, n_live=60, n_batch=30, n_networks=1, periodic=[0], blob='two', seed=seed + 1),
                'run': dict(n_eff=80, discard_exploration=True)}]
+    # the system temporary directory on another filesystem than the checkpoint
+    C += [{'make': dict(kind='gauss', n_dim=2, n_live=50, n_batch=25, n_networks=0, seed=seed + 5), 'run': dict(n_eff=60), 'other_tmpdir': True}]
     return C
 
 
